@@ -13,6 +13,7 @@ OWNER = {
     "newp": "C03", "useful": "C03",
     "nocrash": "C06", "idle": "C06", "disjoint": "C06", "uinp": "C06", "mono": "C06", "noreturn": "C06", "round": "C06",
     "samples": "C06", "cost": "C06", "ret": "C06", "flatp": "C06",
+    "accurate": "C01",
     "sactive": "C07", "sargmax": "C07", "sdistinct": "C07", "data": "C07",
 }
 
@@ -194,6 +195,82 @@ def matrix(kind, tier, seed):
     return out
 
 
+def cone_class(W):
+    import numpy as np
+    W = np.asarray(W, dtype=float)
+    if W.shape[0] == W.shape[1] and np.allclose(W, np.eye(len(W))):
+        return "orth"
+    G = W @ W.T
+    off = G[~np.eye(len(G), dtype=bool)]
+    return "obtuse" if np.all(off > 1e-12) else "acute" if np.all(off < -1e-12) else "mixed"
+
+
+def accuracy_matrix(prop, tier, seed):
+    """scripted posteriors that always contain a fixed truth (10 designs), run to termination: the returned P must be accurate"""
+    q = tier == "quick"
+    M = []
+    WI = {"orth": [[1, 0], [0, 1]], "acute": [[2, -1], [-1, 2]], "obtuse": [[2, 1], [1, 2]], "pyobt": [[3, 4], [4, 3]], "pyac": [[-3, 4], [4, -3]]}
+    reps = 2 if q else 8
+    for rep in range(reps):
+        for e in (0.5, 1.0, 2.0):
+            if prop == "C01":
+                for cn in ("orth", "acute", "obtuse", "pyobt"):
+                    M.append(_c("PaVeBa", "VVD2a", order=("Wint", WI[cn]), eps=e, script=dict(kind="ball", G=4), max_steps=60))
+                M.append(_c("PaVeBaGP", "VVD2a", order=("Wint", WI["orth"]), eps=e, type="IH", script=dict(kind="rect", G=4), max_steps=60))
+                M.append(_c("PaVeBaGP", "VVD2a", order=("W", WI["pyobt"]), eps=e, type="IH", script=dict(kind="rect", G=4), max_steps=60))
+                M.append(_c("PaVeBaGP", "VVD2a", order=("W", WI["pyac"]), eps=e, type="IH", script=dict(kind="rect", G=4), max_steps=60))
+                M.append(_c("PaVeBaPartialGP", "VVD2a", order=("Wint", WI["orth"]), eps=e, script=dict(kind="rect", G=4), max_steps=60))
+                M.append(_c("PaVeBaGP", "VVD2a", order=("Wint", WI["obtuse"]), eps=e, type="DE", script=dict(kind="ell", G=4), max_steps=40))
+                M.append(_c("PaVeBaPartialGP", "VVD2a", order=("Wint", WI["acute"]), eps=e, confidence_type="hyperellipsoid", script=dict(kind="ell", G=4), max_steps=40))
+                M.append(_c("Auer", "VVD2a", eps=e, empirical=False, script=dict(kind="auer", G=4, iso=True), max_steps=60))
+                M.append(_c("Auer", "VVD3a", eps=e, empirical=False, script=dict(kind="auer", G=3, iso=True), max_steps=60))
+                M.append(_c("Auer", "VVD2a", eps=e, empirical=True, script=dict(kind="auer", G=4), max_steps=60))
+            else:
+                for cn in ("orth", "acute", "obtuse", "pyobt"):
+                    M.append(_c("VOGP", "VVD2a", order=("Wint", WI[cn]), eps=e, script=dict(kind="rect", G=4), max_steps=60))
+                M.append(_c("VOGP", "VVD2a", order=("W", [[1, 0], [0, 1], [1, 1]]), eps=e, script=dict(kind="rect", G=4), max_steps=60))
+                M.append(_c("EpsilonPAL", "VVD2a", eps=e, script=dict(kind="rect", G=4), max_steps=60))
+                M.append(_c("EpsilonPAL", "VVD3a", eps=e, script=dict(kind="rect", G=3), max_steps=60))
+                M.append(_c("VOGP", "VVD2a", order=("Wint", WI["acute"]), eps=e, batch=2, script=dict(kind="rect", G=4), max_steps=60))
+    rnd = random.Random(seed + 99)
+    out = []
+    for k, c in enumerate(M):
+        c = copy.deepcopy(c)
+        c["tid"] = k + 1
+        c.setdefault("noise", 0.01)
+        c["seed"] = rnd.randrange(1, 10 ** 6)
+        out.append(c)
+    return out
+
+
+def accuracy_runs(ctx, prop):
+    """leg for C01 / C05: the accuracy statement on runs of the real classes over 10 designs with valid scripted histories"""
+    cfgs = accuracy_matrix(prop, ctx.tier, ctx.seed)
+    traces = pmap(_rec, cfgs)
+    rejects = AT.validate(ctx, traces, label="VOTraceAlgo/accuracy")
+    byid = {T["tid"]: T for T in traces}
+    judged = sum(1 for T in traces if T.get("final", {}).get("judge"))
+    for tid, l, failing, rec in rejects:
+        if "accurate" not in failing:
+            continue
+        T = byid[tid]
+        c = T["cfg"]
+        W = [[1, 0], [0, 1]] if "order" not in c else c["order"][1]
+        kind = c.get("type") or ("empirical" if c.get("empirical") else c.get("confidence_type") or c["script"]["kind"])
+        sig = "inaccurate|%s|%s|cone=%s" % (c["alg"], kind, cone_class(W) if "order" in c else "orth")
+        ctx.violation(sig, {"cfg": c, "final": T["final"], "truth": "scripted (seed)", "steps": len(T["steps"])},
+                      "%s with valid displayed regions in every round (10 designs, scripted posterior) returned P=%s which is not accurate (%s)" % (
+                          c["alg"], T["final"]["P"], c))
+    ctx.traces += len([T for T in traces if T["steps"]])
+    ctx.evaluations += sum(len(T["steps"]) for T in traces)
+    ctx.extra["accuracy_runs"] = len(traces)
+    ctx.extra["accuracy_runs_judged_at_termination"] = judged
+    for T in traces:
+        if T.get("final", {}).get("judge"):
+            ctx.nontriv(("acc", T["alg"], T["final"]["P"], T["cfg"]["seed"]))
+    return traces
+
+
 def _rec(cfg):
     import torch
     torch.set_num_threads(1)
@@ -264,6 +341,10 @@ def run_traces(ctx, kind, prop):
         step = T["steps"][l - 1]
         for cl in failing:
             owner = OWNER.get(cl, "?")
+            if cl == "accurate":
+                owner = "C05" if AT.ALG_FAM[T["alg"]] == "vogp" else "C01"
+                if owner == prop:
+                    continue        # reported by accuracy_runs of C01 / C05 with their own signatures
             if owner != prop:
                 foreign[cl] = foreign.get(cl, 0) + 1
                 continue
